@@ -206,8 +206,15 @@ func UploadPack(
 		go func() {
 			defer close(writec)
 
-			if len(haves) > 0 {
-				// Encode ACKs to client when we have haves
+			// The answer to one round: an ACK line for every have of this
+			// round that is acknowledged, then exactly one line that ends
+			// it (upload-pack.c, get_common_commits). The client reads one
+			// answer for every round it sent, so a line too many is still
+			// there when it goes on to read the pack: a second "NAK" is
+			// taken by the sideband demuxer for a frame of channel 'N', a
+			// "NAK" in front of the final ACK leaves that ACK in front of
+			// the pack signature.
+			if len(acks) > 0 {
 				srvrsp := packp.ServerResponse{ACKs: acks}
 				if err := srvrsp.Encode(w); err != nil {
 					writec <- fmt.Errorf("sending acks server-response: %w", err)
@@ -216,36 +223,31 @@ func UploadPack(
 			}
 
 			switch {
-			case !done:
-				if multiAck || multiAckDetailed {
-					// Encode a NAK for multi-ack
-					srvrsp := packp.ServerResponse{}
-					if err := srvrsp.Encode(w); err != nil {
-						writec <- fmt.Errorf("sending nak server-response: %w", err)
-						return
-					}
+			case !done && (multiAck || multiAckDetailed):
+				// A flush under multi_ack: NAK ends the ACKs of the round.
+				srvrsp := packp.ServerResponse{}
+				if err := srvrsp.Encode(w); err != nil {
+					writec <- fmt.Errorf("sending nak server-response: %w", err)
+					return
 				}
-			case !ack.Hash.IsZero() && (multiAck || multiAckDetailed):
-				// We're done, send the final ACK
+			case done && !ack.Hash.IsZero() && (multiAck || multiAckDetailed):
+				// "done" under multi_ack after something was acknowledged,
+				// in this round or in an earlier one: the final ACK, and
+				// nothing else.
 				ack.Status = 0
 				srvrsp := packp.ServerResponse{ACKs: []packp.ACK{ack}}
 				if err := srvrsp.Encode(w); err != nil {
 					writec <- fmt.Errorf("sending final ack server-response: %w", err)
 					return
 				}
-			case ack.Hash.IsZero() && len(haves) == 0:
-				// No haves were sent. Emit the single terminal NAK.
-				//
-				// When haves *were* sent, the ServerResponse{ACKs: acks}
-				// write above already emitted a NAK (encodeServerResponse
-				// writes NAK when ACKs is empty). Emitting another one here
-				// would produce two consecutive "0008NAK\n" pktlines;
-				// ServerResponse.Decode consumes only the first, and the
-				// second would then be misread by the sideband demuxer as
-				// a frame with channel byte 'N' ("unknown channel NAK").
+			case len(acks) == 0:
+				// Nothing was acknowledged in this round and no ACK follows
+				// (no multi_ack, or "done" with nothing in common): the
+				// single NAK. Without multi_ack an acknowledged have is
+				// answered by its plain ACK alone, written above.
 				srvrsp := packp.ServerResponse{}
 				if err := srvrsp.Encode(w); err != nil {
-					writec <- fmt.Errorf("sending final nak server-response: %w", err)
+					writec <- fmt.Errorf("sending nak server-response: %w", err)
 					return
 				}
 			}
